@@ -19,6 +19,7 @@ package rules
 import (
 	"bufio"
 	"context"
+	"encoding/json"
 	"errors"
 	"fmt"
 	"net/http"
@@ -131,6 +132,108 @@ type c03Req struct {
 type c03Case struct {
 	Rules []c03Rule `json:"rules"`
 	Reqs  []c03Req  `json:"reqs"`
+	// "json": the rule set goes as text through the real config.ParseRules (decoder + validator) and every rule
+	// through DeepCopy before CreateRule sees it; "" / "struct": config structs built by the driver
+	Via string `json:"via,omitempty"`
+}
+
+// what the rule set validator accepts, as far as the conditions of C03 are concerned (internal/rules/config:
+// scheme oneof http https; methods, host and parameter values required; types oneof exact glob regex;
+// parameter name required and not "*"; allow_encoded_slashes oneof off on no_decode)
+func c03ParserAccepts(c c03Case) bool {
+	okType := func(t string) bool { return t == "exact" || t == "glob" || t == "regex" }
+
+	for _, r := range c.Rules {
+		if r.Scheme != "" && r.Scheme != "http" && r.Scheme != "https" {
+			return false
+		}
+
+		for _, m := range r.Methods {
+			if m == "" {
+				return false
+			}
+		}
+
+		for _, h := range r.Hosts {
+			if !okType(h.Type) || h.Value == "" {
+				return false
+			}
+		}
+
+		for _, rt := range r.Routes {
+			if rt.Path == "" {
+				return false
+			}
+
+			for _, p := range rt.Params {
+				if !okType(p.Type) || p.Value == "" || p.Name == "" || p.Name == "*" {
+					return false
+				}
+			}
+		}
+	}
+
+	return len(c.Rules) > 0
+}
+
+// the rule set as a document a provider would load
+func c03RuleSetText(c c03Case) []byte {
+	type m = map[string]any
+
+	var rules []m
+
+	for i, r := range c.Rules {
+		match := m{"backtracking_enabled": r.Bt}
+		if r.Scheme != "" {
+			match["scheme"] = r.Scheme
+		}
+
+		if len(r.Methods) > 0 {
+			match["methods"] = r.Methods
+		}
+
+		var hosts []m
+		for _, h := range r.Hosts {
+			hosts = append(hosts, m{"type": h.Type, "value": h.Value})
+		}
+
+		if hosts != nil {
+			match["hosts"] = hosts
+		}
+
+		var routes []m
+
+		for _, rt := range r.Routes {
+			route := m{"path": rt.Path}
+
+			var ps []m
+			for _, p := range rt.Params {
+				ps = append(ps, m{"name": p.Name, "type": p.Type, "value": p.Value})
+			}
+
+			if ps != nil {
+				route["path_params"] = ps
+			}
+
+			routes = append(routes, route)
+		}
+
+		match["routes"] = routes
+
+		rule := m{"id": fmt.Sprintf("r%d", i), "match": match, "execute": []m{{"authenticator": "a"}}}
+		if r.Slash != "" {
+			rule["allow_encoded_slashes"] = r.Slash
+		}
+
+		rules = append(rules, rule)
+	}
+
+	text, err := json.Marshal(m{"version": "1alpha4", "rules": rules})
+	if err != nil {
+		panic(err)
+	}
+
+	return text
 }
 
 // ---- observation ---------------------------------------------------------------
@@ -370,6 +473,22 @@ func c03Run(c c03Case) (obs c03Obs) {
 		slash []string
 	)
 
+	var parsed *config2.RuleSet
+
+	if c.Via == "json" {
+		if parsed, err = config2.ParseRules("application/json", strings.NewReader(string(c03RuleSetText(c))), false); err != nil {
+			obs.Load, obs.Err = "create_failed", "parse: "+err.Error()
+
+			return obs
+		}
+
+		if len(parsed.Rules) != len(c.Rules) {
+			obs.Load, obs.Err = "create_failed", "parse: rules lost"
+
+			return obs
+		}
+	}
+
 	for i, r := range c.Rules {
 		bt := r.Bt
 		rc := config2.Rule{
@@ -392,6 +511,10 @@ func c03Run(c c03Case) (obs c03Obs) {
 			}
 
 			rc.Matcher.Routes = append(rc.Matcher.Routes, cr)
+		}
+
+		if parsed != nil { // what the decoder made of the document, copied as the kubernetes provider copies it
+			rc = *parsed.Rules[i].DeepCopy()
 		}
 
 		created, err := f.CreateRule("1alpha4", "src", rc)
@@ -1016,6 +1139,10 @@ func c03Gen(r *vf.Rand) c03Case {
 		c.Reqs = append(c.Reqs, q)
 	}
 
+	if c03ParserAccepts(c) && r.Chance(50) {
+		c.Via = "json"
+	}
+
 	return c
 }
 
@@ -1150,6 +1277,9 @@ func c03Corpus() []c03Case {
 
 func c03Tags(c c03Case, o c03Obs) ([]string, bool) {
 	tags := map[string]bool{"load:" + o.Load: true}
+	if c.Via == "json" {
+		tags["via:parser+deepcopy"] = true
+	}
 	nontrivial := false
 
 	type rinfo struct {
